@@ -268,14 +268,15 @@ func Send[T any](ch chan<- T, v T) {
 	t := enter(true)
 	t.op = opSend
 	t.ref = refOfS(ch)
-	if t.ref.cap == 0 {
+	if t.ref.cap == 0 && t.ref.p != nil {
 		t.box = v
-		raceRelease(unsafe.Pointer(&t.box))
+		raceReleaseMerge(t.ref.p) // the value is published to whoever completes the rendezvous
 	}
 	t.point()
 	t.box = nil
 	if t.resDirect {
 		t.resDirect = false
+		raceAcquire(t.ref.p) // an unbuffered receive happens before the send completes
 		return
 	}
 	realSend(ch, v)
@@ -296,12 +297,15 @@ func Recv2[T any](ch <-chan T) (T, bool) {
 	t := enter(true)
 	t.op = opRecv
 	t.ref = refOfR(ch)
+	if t.ref.cap == 0 && t.ref.p != nil {
+		raceReleaseMerge(t.ref.p)
+	}
 	t.point()
 	if t.resDirect {
 		t.resDirect = false
 		b := t.resBox
 		t.resBox = nil
-		raceAcquire(unsafe.Pointer(&t.box))
+		raceAcquire(t.ref.p)
 		v, _ := b.(T)
 		return v, t.resOK
 	}
@@ -393,15 +397,23 @@ func Select(hasDefault bool, cs ...SelCase) int {
 	for _, c := range cs {
 		t.cases = append(t.cases, c.desc())
 	}
-	raceRelease(unsafe.Pointer(&t.box))
+	for k := range t.cases {
+		if t.cases[k].ref.cap == 0 && t.cases[k].ref.p != nil {
+			raceReleaseMerge(t.cases[k].ref.p)
+		}
+	}
 	t.point()
 	i := t.resIdx
+	var chosen unsafe.Pointer
+	if i >= 0 {
+		chosen = t.cases[i].ref.p
+	}
 	for k := range t.cases {
 		t.cases[k].box = nil
 	}
 	if i >= 0 {
-		if t.resDirect {
-			raceAcquire(unsafe.Pointer(&t.box))
+		if t.resDirect && chosen != nil {
+			raceAcquire(chosen)
 		}
 		cs[i].done(t)
 	}
